@@ -4,13 +4,13 @@ open Lean XsVerif.Driver XsVerif.Modes
 
 namespace XsVerif.Driver.C04
 
-/-- steps: ["c",e] collect | ["d",e] direct | ["f"] flush | ["r",d] result | ["s"] stop -/
+/-- steps: ["c",e] collect | ["d",e,inSkip] direct | ["f"] flush | ["r",d] result | ["s"] stop -/
 def parseStep (j : Json) : Except String (Step Nat) := do
   let a ← j.getArr?
   let tag ← (a[0]?.getD Json.null).getStr?
   match tag with
   | "c" => return .collect (← (a[1]?.getD Json.null).getNat?)
-  | "d" => return .direct (← (a[1]?.getD Json.null).getNat?)
+  | "d" => return .direct (← (a[1]?.getD Json.null).getNat?) ((a[2]?.getD (Json.bool true)).getBool?.toOption.getD true)
   | "f" => return .flush
   | "r" => return .result (← (a[1]?.getD Json.null).getNat?)
   | "s" => return .stop
